@@ -21,6 +21,7 @@ type verifItem struct {
 }
 
 type verifReplayDoc struct {
+	Batch  []verifReplayDoc `json:"batch"`
 	Entry  string         `json:"entry"`
 	ID     string         `json:"id"`
 	Vector []verifItem    `json:"vector"`
@@ -32,6 +33,7 @@ var (
 	verifPos       int
 	verifFailed    []string
 	verifExhausted bool
+	verifReached   []string
 	verifMu        sync.Mutex
 	verifParMode   = "seq"
 )
@@ -87,7 +89,7 @@ func verifAssert(c bool, id string) {
 		fmt.Printf("VERIF-ASSERT-FAILED %s\n", id)
 	}
 }
-func verifReach(id string)                  {}
+func verifReach(id string)                  { verifMu.Lock(); verifReached = append(verifReached, id); verifMu.Unlock() }
 func verifNote(msg string)                  { fmt.Println("VERIF-NOTE", msg) }
 func verifNoteInt(msg string, v int)        { fmt.Println("VERIF-NOTE", msg, v) }
 func verifSame(a, b any) bool               { return a == b }
@@ -495,5 +497,29 @@ func verifFDIsName(f *os.File, name string) bool {
 	b, err2 := os.Stat(name)
 	return err1 == nil && err2 == nil && os.SameFile(a, b)
 }
-func verifStdout() string { return "" }
+func verifNoLocksHeld() bool { return true } // not observable natively
+
+var verifStdFiles []*os.File
+
+// verifCaptureStd redirects os.Stdout / os.Stderr into temporary files (FileSink's pass-through targets)
+func verifCaptureStd() {
+	verifStdFiles = nil
+	for i := 0; i < 2; i++ {
+		f, err := os.CreateTemp("", "verif-std-")
+		if err != nil {
+			panic(err)
+		}
+		verifStdFiles = append(verifStdFiles, f)
+	}
+	os.Stdout, os.Stderr = verifStdFiles[0], verifStdFiles[1]
+}
+
+func verifStdout() string {
+	out := ""
+	for _, f := range verifStdFiles {
+		b, _ := os.ReadFile(f.Name())
+		out += string(b)
+	}
+	return out
+}
 func verifNameEq(a, b string) bool { return a == b }
